@@ -421,5 +421,166 @@ theorem ctor_concrete_std (now : Int) (k : Nat) :
       a.kind = .runtime) :=
   ctor_concrete (stdBuiltins_dyn now) (std_dyn_func now) k
 
+/-! ### (2) macro body: `[0].map(x, NEXT)[0] + 1` -/
+
+theorem step_access_method (rec recTop : Rec) (env : Env) (len pc : Nat) (m : Str) (l : List Val) (c : Callee)
+    (rest : List SVal) (log : Log) (hb : env.hasBinds = true) (hc : env.callable B m = some c) :
+    step B rec recTop env len .access pc { stack := .val (.ident m) :: .val (.list l) :: rest, log := log } =
+      .ok pc { stack := .bound c (.list l) :: rest, log := log } := by
+  simp [step, popRaw, popV, popS, hb, hc]
+
+theorem step_call_macro2 (rec recTop : Rec) (env : Env) (len pc : Nat) (name : Str) (this : Val)
+    (c₁ c₂ : List Instr) (rest : List SVal) (log : Log) :
+    step B rec recTop env len (.call 2) pc
+        { stack := .bound (.macro_ name) this :: .val (.code c₁) :: .val (.code c₂) :: rest, log := log } =
+      .ok pc { stack := .val (callMacro rec recTop env name this [c₁, c₂] log).1 :: rest,
+               log := (callMacro rec recTop env name this [c₁, c₂] log).2 } := by
+  simp [step, popRaw, popN_code2, invoke, codeArgs, liftNext, pushV]
+
+theorem evalIdent_var (x : Str) : evalIdent (runFresh B) [.push (.ident x)] = .ok x := by
+  simp [evalIdent, runFresh, blockFuel, loop, step, pushV, finish, Env.getParam]
+
+theorem callMacro_map1 (rec : Rec) (env : Env) (x : Str) (v : Val) (body : List Instr) (log : Log) :
+    callMacro rec (runFresh B) env "map".toList (.list [v]) [[.push (.ident x)], body] log =
+      match (rec (env.bind x v) body true log).res with
+      | .error a => (.err a.kind, (rec (env.bind x v) body true log).log)
+      | .ok r => (.list [r], (rec (env.bind x v) body true log).log) := by
+  have hne1 : ("map".toList = "has".toList) = False := by decide
+  have hne2 : ("map".toList = "coalesce".toList) = False := by decide
+  have hne3 : ("map".toList = "reduce".toList) = False := by decide
+  simp only [callMacro, hne1, hne2, hne3, if_false, if_true, evalIdent_var, rangeOf, loopList, runBody]
+  cases (rec (env.bind x v) body true log).res <;> simp
+
+/-- What the compiler emits for `[0].map(x, NEXT)[0] + 1` (arguments are pushed last first; `[0]` is folded). -/
+def mapLink (x nxt : Str) : List Instr :=
+  [.push (.code (refBlock nxt)), .push (.code [.push (.ident x)]), .push (.list [.int 0]),
+   .push (.ident "map".toList), .access, .call 2, .push (.int 0), .index, .push (.int 1), .add]
+
+theorem map_callable (env : Env) (hb : env.hasBinds = true) (hf : env.getFunc B "map".toList = none) :
+    env.callable B "map".toList = some (.macro_ "map".toList) := by
+  have hm : env.isMacro "map".toList = true := by
+    simp only [Env.isMacro, defaultMacros, compileMacros, hb]; cases env.compileMode <;> simp <;> decide
+  simp only [Env.callable, hf, hm, if_true]
+
+theorem map_lvl_ok (b : Nat) (env : Env) (x nxt : Str) (log log' : Log) (d : Nat)
+    (hb : env.hasBinds = true) (hf : env.getFunc B "map".toList = none)
+    (hd : (d : Int) + 1 ≤ 9223372036854775807)
+    (hr : runAt B b (env.bind x (.int 0)) (refBlock nxt) true log = { res := .ok (.int d), log := log' }) :
+    runAt B (b + 1) env (mapLink x nxt) true log = { res := .ok (.int ((d + 1 : Nat) : Int)), log := log' } := by
+  have hadd := add_one d hd
+  have hidx : index (.list [.int d]) (.int 0) = .int d := by simp [index, errProp]
+  rw [show ((d + 1 : Nat) : Int) = (d : Int) + 1 by omega, nested_runs_at_smaller_budget]
+  simp only [mapLink, blockFuel, List.length_cons, List.length_nil, Nat.reduceAdd, Nat.reduceMul]
+  rw [loop_at (i := .push (.code (refBlock nxt))) (hf := by omega) (h := rfl)]
+  simp only [step, pushV, Nat.reduceAdd, Nat.reduceSub]
+  rw [loop_at (i := .push (.code [.push (.ident x)])) (hf := by omega) (h := rfl)]
+  simp only [step, pushV, Nat.reduceAdd, Nat.reduceSub]
+  rw [loop_at (i := .push (.list [.int 0])) (hf := by omega) (h := rfl)]
+  simp only [step, pushV, Nat.reduceAdd, Nat.reduceSub]
+  rw [loop_at (i := .push (.ident "map".toList)) (hf := by omega) (h := rfl)]
+  simp only [step, pushV, Nat.reduceAdd, Nat.reduceSub]
+  rw [loop_at (i := .access) (hf := by omega) (h := rfl)]
+  rw [step_access_method (hb := hb) (hc := map_callable env hb hf)]
+  simp only [Nat.reduceAdd, Nat.reduceSub]
+  rw [loop_at (i := .call 2) (hf := by omega) (h := rfl)]
+  rw [step_call_macro2, callMacro_map1, hr]
+  simp only [Nat.reduceAdd, Nat.reduceSub]
+  rw [loop_at (i := .push (.int 0)) (hf := by omega) (h := rfl)]
+  simp only [step, pushV, Nat.reduceAdd, Nat.reduceSub]
+  rw [loop_at (i := .index) (hf := by omega) (h := rfl)]
+  simp only [step, liftNext, binop, popV, popS, pushV, hidx, Nat.reduceAdd, Nat.reduceSub]
+  rw [loop_at (i := .push (.int 1)) (hf := by omega) (h := rfl)]
+  simp only [step, pushV, Nat.reduceAdd, Nat.reduceSub]
+  rw [loop_at (i := .add) (hf := by omega) (h := rfl)]
+  simp only [step, liftNext, binop, popV, popS, pushV, hadd, Nat.reduceAdd, Nat.reduceSub]
+  rw [loop_end (h := by simp)]
+  simp [finish, popS]
+
+theorem map_lvl_err (b : Nat) (env : Env) (x nxt : Str) (log log' : Log) (a : Abort)
+    (hb : env.hasBinds = true) (hf : env.getFunc B "map".toList = none)
+    (hr : runAt B b (env.bind x (.int 0)) (refBlock nxt) true log = { res := .error a, log := log' }) :
+    runAt B (b + 1) env (mapLink x nxt) true log = { res := .error (.err a.kind), log := log' } := by
+  have hidx : index (.err a.kind) (.int 0) = .err a.kind := by simp [index, errProp]
+  rw [nested_runs_at_smaller_budget]
+  simp only [mapLink, blockFuel, List.length_cons, List.length_nil, Nat.reduceAdd, Nat.reduceMul]
+  rw [loop_at (i := .push (.code (refBlock nxt))) (hf := by omega) (h := rfl)]
+  simp only [step, pushV, Nat.reduceAdd, Nat.reduceSub]
+  rw [loop_at (i := .push (.code [.push (.ident x)])) (hf := by omega) (h := rfl)]
+  simp only [step, pushV, Nat.reduceAdd, Nat.reduceSub]
+  rw [loop_at (i := .push (.list [.int 0])) (hf := by omega) (h := rfl)]
+  simp only [step, pushV, Nat.reduceAdd, Nat.reduceSub]
+  rw [loop_at (i := .push (.ident "map".toList)) (hf := by omega) (h := rfl)]
+  simp only [step, pushV, Nat.reduceAdd, Nat.reduceSub]
+  rw [loop_at (i := .access) (hf := by omega) (h := rfl)]
+  rw [step_access_method (hb := hb) (hc := map_callable env hb hf)]
+  simp only [Nat.reduceAdd, Nat.reduceSub]
+  rw [loop_at (i := .call 2) (hf := by omega) (h := rfl)]
+  rw [step_call_macro2, callMacro_map1, hr]
+  simp only [Nat.reduceAdd, Nat.reduceSub]
+  rw [loop_at (i := .push (.int 0)) (hf := by omega) (h := rfl)]
+  simp only [step, pushV, Nat.reduceAdd, Nat.reduceSub]
+  rw [loop_at (i := .index) (hf := by omega) (h := rfl)]
+  simp only [step, liftNext, binop, popV, popS, pushV, hidx, Nat.reduceAdd, Nat.reduceSub]
+  rw [loop_at (i := .push (.int 1)) (hf := by omega) (h := rfl)]
+  simp only [step, pushV, Nat.reduceAdd, Nat.reduceSub]
+  rw [loop_at (i := .add) (hf := by omega) (h := rfl)]
+  simp only [step, liftNext, binop, popV, popS, pushV, arith, errProp, Nat.reduceAdd, Nat.reduceSub]
+  rw [loop_end (h := by simp)]
+  simp [finish, popS]
+
+/-- The map-body shape: the referenced program is run under the loop variable's binding. -/
+def mapBody (B : Builtins) (x : Str) : Shape where
+  code := mapLink x
+  cost := 2
+  inner := fun env => env.bind x (.int 0)
+  good := fun env => env.hasBinds = true ∧ env.getFunc B "map".toList = none
+  okName := fun n => n ≠ x
+  val := fun d => d
+
+/-- **The accounting of a macro body**: two levels per reference (the body block, the program). -/
+theorem mapBody_sound (x : Str) : (mapBody B x).Sound B :=
+  Shape.sound_of_block (mapBody B x) rfl rfl (fun _ h => ⟨h.1, h.2⟩) (fun _ _ => rfl)
+    (fun env n hn => rebind_keeps_others env x n (.int 0) hn) (fun _ _ => rfl)
+    (fun b env nxt log log' d hg _ hd hr => map_lvl_ok b env x nxt log log' d hg.1 hg.2 hd hr)
+    (fun b env nxt log log' a hg _ hka hr => ⟨.err a.kind, map_lvl_err b env x nxt log log' a hg.1 hg.2 hr, hka⟩)
+
+/-- **Map-body chains up to 15 references evaluate**: `q₀ := [0].map(x, q₁)[0] + 1, …, q_k := 0`
+    executed the way `CelContext::exec` does yields `k` for every `k ≤ 15`. -/
+theorem map_chain_ok (x : Str) (env : Env) (names : Nat → Str) (k : Nat)
+    (hc : IsBlockChain (mapBody B x) env names k) (hk : k ≤ 15) :
+    execProg B env (blockChainCode (mapBody B x) names k 0) = { res := .ok (.int k), log := [] } :=
+  block_chain_ok (mapBody B x) (mapBody_sound x) env names k hc (by show k * 2 < 32; omega)
+
+/-- In particular the chain that is 16 programs deep (15 references) evaluates to 15. -/
+theorem map_chain_16_programs (x : Str) (env : Env) (names : Nat → Str)
+    (hc : IsBlockChain (mapBody B x) env names 15) :
+    execProg B env (blockChainCode (mapBody B x) names 15 0) = { res := .ok (.int 15), log := [] } :=
+  map_chain_ok x env names 15 hc (by omega)
+
+/-- **From 16 references on the chain ends in a Runtime failure** of the executed program. -/
+theorem map_chain_too_deep (x : Str) (env : Env) (names : Nat → Str) (k : Nat)
+    (hc : IsBlockChain (mapBody B x) env names k) (hk : 16 ≤ k) :
+    ∃ a, execProg B env (blockChainCode (mapBody B x) names k 0) = { res := .error a, log := [] } ∧
+      a.kind = .runtime :=
+  block_chain_too_deep (mapBody B x) (mapBody_sound x) env names k hc (by show 32 ≤ k * 2; omega)
+
+theorem std_map_func (now : Int) : (stdBuiltins now).func "map".toList = none := rfl
+
+theorem qname_ne_x (i : Nat) : qname i ≠ "x".toList := by
+  simp [qname]
+
+theorem mapEnv_isChain (hB : B.func "map".toList = none) (k : Nat) :
+    IsBlockChain (mapBody B "x".toList) (blockChainEnv (mapBody B "x".toList) k) qname k :=
+  blockChainEnv_isChain _ k ⟨rfl, by simp [Env.getFunc, blockChainEnv, lookup]; exact hB⟩ qname_ne_x
+
+/-- The concrete statement for every `k`: in the context `q := [0].map(x, qq)[0] + 1, …` with `k`
+    references, `exec("q")` yields `k` when `k ≤ 15` and is a Runtime failure when `k ≥ 16`. -/
+theorem map_concrete (hB : B.func "map".toList = none) (k : Nat) :
+    (k ≤ 15 → execProg B (blockChainEnv (mapBody B "x".toList) k) (blockChainCode (mapBody B "x".toList) qname k 0) =
+      { res := .ok (.int k), log := [] }) ∧
+    (16 ≤ k → ∃ a, execProg B (blockChainEnv (mapBody B "x".toList) k)
+        (blockChainCode (mapBody B "x".toList) qname k 0) = { res := .error a, log := [] } ∧ a.kind = .runtime) :=
+  ⟨map_chain_ok _ _ _ k (mapEnv_isChain hB k), map_chain_too_deep _ _ _ k (mapEnv_isChain hB k)⟩
+
 end C12Blocks
 end Rscel
